@@ -2,7 +2,7 @@
    comes back unchanged from proximal_operator and admm returns the unconstrained least-squares solution; with Some n the definitions are
    the ones of Model/Constraints.v. *)
 From Coq Require Import List Arith Bool.
-From TLV Require Import Base.PyList Base.Tensor Model.Constraints Model.ConstraintsNc.
+From TLV Require Import Base.PyList Base.Tensor Model.Constraints Model.ConstraintsNc Proofs.ConstraintsProofsLoop.
 Import ListNotations.
 
 Section NConst.
@@ -11,12 +11,43 @@ Section NConst.
   Theorem n_const_none_ignores_request (sp : list (kind * @zspec P)) order n_iter split conv (ls x dual : M) :
     proximal_operator_nc truthy op None sp order x = Ok x /\
     (0 < n_iter -> admm_nc truthy op msub madd None sp order n_iter split conv ls x dual = Ok (ls, split x dual, dual)) /\
-    admm_nc truthy op msub madd None sp order 0 split conv ls x dual = Err.
-  Proof. split; [reflexivity|]. split; [|reflexivity]. destruct n_iter; [intros H; inversion H | reflexivity]. Qed.
+    (forall nc, admm_nc truthy op msub madd nc sp order 0 split conv ls x dual = Ok (x, x, dual)).
+  Proof. split; [reflexivity|]. split; [|intros [n|]; reflexivity]. destruct n_iter; [intros H; inversion H | reflexivity]. Qed.
 
   Theorem n_const_some_is_the_model n (sp : list (kind * @zspec P)) order n_iter split conv (ls x dual : M) :
     proximal_operator_nc truthy op (Some n) sp order x = proximal_operator op (zvalidate truthy n sp) order x /\
     admm_nc truthy op msub madd (Some n) sp order n_iter split conv ls x dual =
     admm msub madd n_iter split conv (proximal_operator op (zvalidate truthy n sp) order) x dual.
   Proof. split; reflexivity. Qed.
+
+  (* admm without `order` (None) is admm on mode 0: the same term, hence the same result, and with n_const = n the returned primal
+     variable is the output of the operator validate_constraints selects for mode 0 - the identity when mode 0 is unconstrained -
+     (inner budget >= 1); a request with two constraints on one mode is rejected; proximal_operator with an explicit order=None and a
+     number of constraints raises, with n_const=None it returns its input *)
+  Theorem admm_order_none_is_mode_0 nc (sp : list (kind * @zspec P)) n_iter split conv (ls x dual : M) :
+    admm_py truthy op msub madd nc sp None n_iter split conv ls x dual = admm_py truthy op msub madd nc sp (Some 0) n_iter split conv ls x dual.
+  Proof. reflexivity. Qed.
+
+  Theorem admm_order_none_applies_mode_0 n (sp : list (kind * @zspec P)) n_iter split conv (ls x dual x' s d' : M) :
+    admm_py truthy op msub madd (Some n) sp None n_iter split conv ls x dual = Ok (x', s, d') ->
+    (0 < n_iter -> exists c v, zvalidate truthy n sp 0 = Ok c /\ x' = prox_of op c v) /\ (n_iter = 0 -> x' = x /\ s = x /\ d' = dual).
+  Proof.
+    unfold admm_py, admm_nc, order_of. intros H.
+    apply (admm_range msub madd (fun y => exists c v, zvalidate truthy n sp 0 = Ok c /\ y = prox_of op c v)) in H; [exact H|].
+    intros v y Hy. unfold proximal_operator in Hy. destruct (zvalidate truthy n sp 0) as [c|] eqn:Ec; simpl in Hy; [|discriminate Hy].
+    inversion Hy; subst. exists c, v. split; reflexivity.
+  Qed.
+
+  Theorem admm_order_none_rejects n (sp : list (kind * @zspec P)) n_iter split conv (ls x dual : M) :
+    zvalidate truthy n sp 0 = Err -> 0 < n_iter ->
+    admm_py truthy op msub madd (Some n) sp None n_iter split conv ls x dual = Err.
+  Proof.
+    intros Hv Hn. destruct n_iter as [|k]; [inversion Hn|].
+    unfold admm_py, admm_nc, order_of, admm. cbn [admm_loop]. unfold proximal_operator. rewrite Hv. reflexivity.
+  Qed.
+
+  Theorem proximal_operator_order_none n (sp : list (kind * @zspec P)) (x : M) :
+    proximal_operator_py truthy op (Some n) sp None x = Err /\ proximal_operator_py truthy op None sp None x = Ok x /\
+    forall o, proximal_operator_py truthy op (Some n) sp (Some o) x = proximal_operator_nc truthy op (Some n) sp o x.
+  Proof. repeat split; reflexivity. Qed.
 End NConst.
